@@ -315,7 +315,13 @@ class C13(Check):
                 back = clock.went_back
                 if r is None and op in ('start', 'enter', 'restart') and \
                         st_before != 'STARTED':
-                    viol('clock_not_read', op=op, index=i)
+                    if not clock.log:
+                        # the watch never looked at timeutils.now in this
+                        # run: the seam is not in effect on this tree, nothing
+                        # can be decided
+                        bump(pr, 'clock_seam_unavailable')
+                    else:
+                        viol('clock_not_read', op=op, index=i)
                     break
                 if r is None:
                     r = clock.t   # unused by ops that need no reading
